@@ -491,6 +491,7 @@ def build() -> Check:
         ("completed step a followed by a step ready for its retry; a is passed", [("a", "STEP", "SUCCEEDED", None), ("r", "STEP", "READY", None)], [], "a", True),
         ("the execution record and one completed step a; a is passed", [("e", "EXECUTION", "STARTED", None), ("a", "STEP", "SUCCEEDED", None)], [], "a", True),
         ("a context still open (suspended inside) with a completed step s; s is passed", [("C", "CONTEXT", "STARTED", None), ("s", "STEP", "SUCCEEDED", "C")], [], "s", True),
+        ("completed step a and a later completed (empty) context C; only a is passed", [("a", "STEP", "SUCCEEDED", None), ("C", "CONTEXT", "SUCCEEDED", None)], [], "a", False),
         ("completed context C (holding s) and a later completed step b; only C is passed", [("C", "CONTEXT", "SUCCEEDED", None), ("s", "STEP", "SUCCEEDED", "C"), ("b", "STEP", "SUCCEEDED", None)], [], "C", False),
     ]
     bad6 = []
